@@ -569,7 +569,7 @@ class TTFont(object):
         if quiet is not None:
             deprecateArgument("quiet", "configure logging instead")
 
-        if "maxp" in self and "post" in self:
+        if "maxp" in self and ("post" in self or "CFF " in self):
             # Make sure the glyph order is loaded, as it otherwise gets
             # lost if the XML doesn't contain the glyph order, yet does
             # contain the table which was originally used to extract the
